@@ -213,6 +213,68 @@ theorem atomic_store_create_denied (p t : Path) (new : Bytes) (fs : FS) (k : Nat
   · cases mask <;> rfl
   · rfl
 
+/-- **exactly.** The target afterwards is the new content if the store reported success and the untouched previous
+    content otherwise -/
+theorem atomic_store_exact (p t : Path) (htp : t ≠ p) (new : Bytes) (fs : FS) (f : Fault) :
+    exec (storeAtomic p t new) f fs p =
+      if status (storeAtomic p t new) f = .ok then some new else fs p := by
+  have hdone := (atomic_complete p t htp new fs).1
+  have hlen : (storeAtomic p t new).main.length = 6 := rfl
+  cases f with
+  | none =>
+    rw [show status (storeAtomic p t new) .none = .ok from rfl, if_pos rfl]; exact hdone
+  | die i k =>
+    by_cases hi : i < 6
+    · obtain ⟨o, ho, hp⟩ := atomic_cut p t htp new fs i k hi
+      have hs : status (storeAtomic p t new) (.die i k) = .died := by simp only [status, hlen, if_pos hi]
+      rw [hs, if_neg (by decide)]
+      simp only [exec, ho]; exact hp
+    · have hn := atomic_past_end p t new i (by omega)
+      have hs : status (storeAtomic p t new) (.die i k) = .ok := by simp only [status, hlen, if_neg hi]
+      rw [hs, if_pos rfl]
+      simp only [exec, hn]; exact hdone
+  | fail i k mask =>
+    by_cases hi : i < 6
+    · obtain ⟨o, ho, hp⟩ := atomic_cut p t htp new fs i k hi
+      have hs : status (storeAtomic p t new) (.fail i k mask) = .err := by simp only [status, hlen, if_pos hi]
+      rw [hs, if_neg (by decide)]
+      simp only [exec, ho]
+      rw [runMasked_frame _ _ _ _ (atomic_cleanup_p p t htp new i)]; exact hp
+    · have hn := atomic_past_end p t new i (by omega)
+      have hs : status (storeAtomic p t new) (.fail i k mask) = .ok := by simp only [status, hlen, if_neg hi]
+      rw [hs, if_pos rfl]
+      simp only [exec, hn]; exact hdone
+
+/-- **one long-lived store object.** For every interleaving of reads and (faulted or unfaulted) stores on one
+    object, every read returns the content of the last store that reported success — or what was there before the
+    sequence if none did. Nothing of an earlier read or store lingers: two successive values may be as similar as
+    they like (same length, one digit apart, stored in the same second). -/
+theorem obj_reads_last (p : Path) (ops : List ObjOp) (fs : FS)
+    (ht : ∀ s, ObjOp.store s ∈ ops → s.tmp ≠ p) :
+    runObj p ops fs = specObj p ops (fs p) := by
+  induction ops generalizing fs with
+  | nil => rfl
+  | cons o r ih =>
+    cases o with
+    | get =>
+      simp only [runObj, specObj]
+      rw [ih fs (fun s hs => ht s (List.mem_cons_of_mem _ hs))]
+    | store s =>
+      simp only [runObj, specObj]
+      rw [ih _ (fun s' hs => ht s' (List.mem_cons_of_mem _ hs)),
+        atomic_store_exact p s.tmp (ht s (List.mem_cons_self ..)) s.new fs s.fault]
+
+/-- at the value level: with `decode (encode v) = some v`, store `a`, read, store `b`, read returns `a` then `b` -/
+theorem obj_store_get_store_get {V : Type} (encode : V → Bytes) (decode : Bytes → Option V)
+    (hrt : ∀ v, decode (encode v) = some v) (p t : Path) (htp : t ≠ p) (fs : FS) (a b : V) :
+    (runObj p [.store ⟨encode a, t, .none⟩, .get, .store ⟨encode b, t, .none⟩, .get] fs).map (·.bind decode) =
+      [some a, some b] := by
+  rw [obj_reads_last p _ fs (by
+    intro s hs
+    simp only [List.mem_cons, ObjOp.store.injEq, List.not_mem_nil, or_false, reduceCtorEq, false_or] at hs
+    rcases hs with rfl | rfl <;> exact htp)]
+  simp [specObj, status, hrt]
+
 /-- **sequences.** Any sequence of stores into one directory — each with its own fault, killed stores leaving their
     temp files behind, nothing cleaned in between — leaves at the target the content it had before the sequence or
     the COMPLETE content of one of the stores of the sequence; never a mixture, whatever temp files lie around.
@@ -337,6 +399,11 @@ example :
     let fs : FS := FS.set (fun _ => none) "share" (some [1, 2, 3])
     exec (storeFixedTemp "share" "t" [7, 7]) .none (exec (storeFixedTemp "share" "t" [4, 5, 6, 7, 8, 9]) (.die 1 5) fs)
       "share" = some [7, 7, 6, 7, 8] := by decide
+
+/-- one object: nothing yet, store, read, failed store of another value, read, store of a same-length value, read -/
+example :
+    runObj "share" [.get, .store ⟨[1, 2], "t", .none⟩, .get, .store ⟨[3, 4], "t", .fail 1 1 []⟩, .get,
+      .store ⟨[1, 3], "t", .none⟩, .get] (fun _ => none) = [none, some [1, 2], some [1, 2], some [1, 3]] := by decide
 
 /-- the round-trip hypothesis of the value-level theorems is satisfiable (identity coding) -/
 example : ∀ v : Bytes, (some : Bytes → Option Bytes) (id v) = some v := fun _ => rfl
